@@ -24,6 +24,9 @@ impl Error for E {}
 impl E { pub fn source(&self) -> Option<&(dyn Error + 'static)> { Some(&POISON) } }
 pub static POISON: E = E(255);
 #[derive(Debug)] pub struct NotErr(pub u8);
+// a user error type that is merely CALLED Backtrace
+pub mod errs { use super::*; #[derive(Debug)] pub struct Backtrace(pub usize);
+    impl fmt::Display for Backtrace { fn fmt(&self, f: &mut fmt::Formatter<'_>) -> fmt::Result { f.write_str("B") } } impl Error for Backtrace {} }
 pub trait Tr { type Assoc; }
 #[derive(Debug)] pub struct HoldsErr; impl Tr for HoldsErr { type Assoc = E; }
 #[derive(Debug)] pub struct HoldsNot; impl Tr for HoldsNot { type Assoc = NotErr; }
@@ -62,12 +65,12 @@ def render(c, key, src_field=None, nightly=False):
     gd = "<" + ", ".join(gdecl) + ">" if gens else ""
     fields, vals, names = [], [], []
     for i, f in enumerate(l):
-        ty = {"err": "E", "generic": f"T{i}", "assoc": f"T{i}::Assoc", "box": "Box<dyn Error + 'static>", "bt": "Backtrace"}[f["ty"]]
+        ty = {"err": "E", "generic": f"T{i}", "assoc": f"T{i}::Assoc", "box": "Box<dyn Error + 'static>", "bt": "Backtrace", "bterr": "errs::Backtrace"}[f["ty"]]
         nm = f["name"] if f["name"] != "other" else f"f{i}"
         names.append(nm)
         is_src = src_field == i + 1
         val = {"err": f"E({i})", "generic": (f"E({i})" if is_src else f"NotErr({i})"), "assoc": (f"E({i})" if is_src else f"NotErr({i})"),
-               "box": f"Box::new(E({i})) as Box<dyn Error + 'static>", "bt": "Backtrace::disabled()"}[f["ty"]]
+               "box": f"Box::new(E({i})) as Box<dyn Error + 'static>", "bt": "Backtrace::disabled()", "bterr": f"errs::Backtrace({i})"}[f["ty"]]
         if named:
             fields.append(f"{ATTR[f['attr']]}{nm}: {ty}")
             vals.append(f"{nm}: {val}")
